@@ -16,7 +16,9 @@
        model's string;  spec: the intended tree (duplicates grouped)
      2 parse_json (this development's recogniser) on the REAL output  =  serde_json on it
      3 the model's string and the real output have the same tokens (layout may differ)
-     4 the text targets the view gives = annotation.textselections() through the API *)
+     4 the text targets the view gives = annotation.textselections() through the API
+     5 the source/selector objects under "target" of the export (read by serde_json from the real
+       output / by parse_json from the model's string), in order = those text targets *)
 From Coq Require Import List ZArith NArith Bool Arith String.
 Import ListNotations.
 From Stam Require Import Base.Sx Model.Json Model.WebAnno Spec.WebAnnoSpec.
@@ -151,13 +153,15 @@ Fixpoint tokens_eqb (a b : list token) : bool :=
   | _, _ => false
   end.
 
+(* same tokens; when neither text lexes (an export inside a known class) same characters
+   apart from whitespace *)
 Definition same_tokens (impl model : option str) : bool :=
   match impl, model with
   | None, None => true
   | Some x, Some y =>
       match lex LStart x, lex LStart y with
       | Some tx, Some ty => tokens_eqb tx ty
-      | None, None => str_eqb x y
+      | None, None => str_eqb (filter (fun ch => negb (is_ws ch)) x) (filter (fun ch => negb (is_ws ch)) y)
       | _, _ => false
       end
   | _, _ => false
@@ -186,6 +190,22 @@ Definition set_generated (c : config) (g : option str) : config :=
      c_extra_context := c_extra_context c; c_generated := g; c_generator := c_generator c;
      c_namespaces := c_namespaces c; c_template := c_template c |}.
 
+(* the source/selector objects below the "target" member *)
+Definition obs_targets (o : option str) : sx :=
+  match o with
+  | None => A (-1)
+  | Some [] => A (-3)
+  | Some s => match parse_json s with
+              | Some (JObj m) =>
+                  match member [116; 97; 114; 103; 101; 116]%N m with
+                  | Some t => targets_sx (Some (targets t))
+                  | None => L []
+                  end
+              | Some _ => L []
+              | None => A (-2)
+              end
+  end.
+
 Definition run_case (st : storev) (c0 : config) (auto_generated : bool) (x : sx) : list sx :=
   let a := sx_nat (sx_nth 0 x) in
   let c := if auto_generated then set_generated c0 (Some (str_of (sx_nth 2 x))) else c0 in
@@ -194,7 +214,8 @@ Definition run_case (st : storev) (c0 : config) (auto_generated : bool) (x : sx)
   let m1 := obs_string false model in
   match get_ann st a with
   | None => [triple m1 m1 0; triple (obs_string false impl) (obs_string false impl) 0;
-             triple (of_bool (same_tokens impl model)) (A 1) 0; triple (A (-1)) (A (-1)) 0]
+             triple (of_bool (same_tokens impl model)) (A 1) 0; triple (A (-1)) (A (-1)) 0;
+             triple (obs_targets model) (obs_targets model) 0]
   | Some av =>
       let k := classify st c a av in
       let spec1 :=
@@ -207,8 +228,11 @@ Definition run_case (st : storev) (c0 : config) (auto_generated : bool) (x : sx)
       let t4 := targets_sx (abs_targets st c (a_target av)) in
       [triple m1 spec1 k;
        triple (obs_string false impl) (obs_string false impl) 0;
-       triple (of_bool (same_tokens impl model)) (A 1) 0;
-       triple t4 t4 0]
+       triple (of_bool (same_tokens impl model)) (A 1) k;   (* inside a known class the code may have been repaired *)
+       triple t4 t4 0;
+       triple (obs_targets model)
+              (if negb (accepted av) || Known_C17_anonymous_target st av then A (-3)
+               else match export_ast st c a with Some _ => t4 | None => obs_targets model end) k]
   end.
 
 Definition run_C17 (x : sx) : sx :=
